@@ -13,7 +13,7 @@ import (
 // Valid content never uses typed descriptors here (their bodies are C14's subject); this switch
 // additionally keeps checksum-repaired mutations whose result the library accepts with a typed
 // descriptor out of the case stream. Set to false once the real Model/Desc.v is merged.
-const psiDescStub = true
+const psiDescStub = false
 
 // plain descriptor tags: no case in the switch of parseDescriptors, not user defined
 var psiPlainTags = []uint8{0x00, 0x01, 0x02, 0x03, 0x04, 0x07, 0x08, 0x09, 0x0b, 0x0c, 0x0d, 0x10, 0x13, 0x1b, 0x27, 0x29,
